@@ -89,7 +89,7 @@ fn plan(seeds: &[u16]) -> Plan {
         prefix.push((i, format!("NICK n{}", i)));
         prefix.push((i, format!("USER u{} 0 * :Real n{}", i, i)));
     }
-    let kind_i = s.pick(20);
+    let kind_i = s.pick(25);
     let mut per_conn: Vec<(usize, Vec<String>)> = vec![];
     let mut contested_nick = None;
     let mut new_channel = None;
@@ -232,6 +232,30 @@ fn plan(seeds: &[u16]) -> Plan {
                 per_conn.push((2, vec!["WHO #a1".into(), "WHO *".into()]));
             }
             "multi-target-vs-join"
+        }
+        20 | 21 | 22 => {
+            // the victim of a KICK leaves, renames or disconnects at the same moment
+            for c in 0..3 {
+                prefix.push((c, "JOIN #k".into()));
+            }
+            per_conn.push((0, vec![["KICK #k n1 :out", "KICK #k n1,n2 :both", "KICK #k n2,n1"][s.pick(3)].into()]));
+            per_conn.push((1, vec![["PART #k", "NICK n1b", "QUIT :bye", "JOIN 0", "PART #k :leaving anyway"][s.pick(5)].into()]));
+            if s.chance(40) {
+                per_conn.push((2, vec![["PRIVMSG #k :meanwhile", "PART #k", "NAMES #k"][s.pick(3)].into()]));
+            }
+            "kick-vs-leave"
+        }
+        23 | 24 => {
+            // somebody claims the nick of a user that is being killed: the victim's clean-up must
+            // never take the new owner away
+            prefix.push((0, "OPER op0 operpw0".into()));
+            prefix.push((1, "JOIN #q".into()));
+            per_conn.push((0, vec!["KILL n1 :gone".into()]));
+            per_conn.push((2, if s.chance(50) { vec!["NICK n1".into()] } else { vec!["NICK n1".into(), "NICK n1".into()] }));
+            if s.chance(40) {
+                per_conn.push((3, vec![["WHOIS n1", "PRIVMSG n1 :are you there", "ISON n1"][s.pick(3)].into()]));
+            }
+            "kill-vs-takeover"
         }
         14..=19 => {
             // any pair of handlers: two or three connections send one or two commands each, drawn
